@@ -32,7 +32,8 @@ Print Assumptions C01_library_layer.
 (* Derive layer.  For every environment of derived definitions inside the decidable `plain`
    fragment (plain_envb: structs and enums of every shape — named, tuple, newtype, unit — GENERIC over
    any number of type parameters or not, with rename / rename_all / rename_all_fields / skip /
-   struct-level tag, all four enum representations, fields of any library type expression over type
+   struct-level tag, all four enum representations incl. newtype variants of an internally tagged enum around a struct
+   (`{ "tag": "Name" } & Struct`), fields of any library type expression over type
    parameters and references to (instantiations of) other definitions, recursion included, `inline`
    on fields of definitions without parameters, `optional` / `optional = nullable` on Option fields and `optional_fields`
    on the container where serde agrees with the `?` — a property whose type does not include null carries
@@ -165,6 +166,31 @@ Example C01_derive_optional_nonvacuous :
 Proof.
   cbv zeta. split; [vm_compute; reflexivity|]. split; [vm_compute; reflexivity|]. eexists; eexists; eexists; eexists.
   split; [vm_compute; reflexivity|]. split; [vm_compute; reflexivity|]. split; [vm_compute; reflexivity|].
+  split; [vm_compute; reflexivity|]. split; [vm_compute; reflexivity|]. split; [vm_compute; reflexivity|].
+  split; [vm_compute; reflexivity|]. split; vm_compute; reflexivity.
+Qed.
+
+(* the commonest shape of an internally tagged enum: newtype variants around structs.
+   struct TextMsg { body: String, n: i32 }   #[serde(tag = "type")] enum Msg { Ping, Text(TextMsg) } *)
+Module C01_newtype.
+Import C01_example.
+Definition R : env :=
+  [(lit "TextMsg", DStruct (cat "TextMsg" None None) (SNamed [fld "body" (RLeaf LString); fld "n" i32]));
+   (lit "Msg", DEnum (cat "Msg" None None) (Internal (lit "type")) None
+      [var "Ping" SUnit; var "Text" (STuple [fld "_0" (RNamed (lit "TextMsg") [])])])].
+Definition t : rty := RNamed (lit "Msg") [].
+End C01_newtype.
+
+Example C01_derive_newtype_nonvacuous :
+  let R := C01_newtype.R in
+  plain_envb C01_example.up C01_example.al is_ascii_digit R 10 = true /\ mono_ty R C01_newtype.t = true /\
+  exists a d j, name_of R C01_newtype.t = Ok a /\ Rust.lookup R (lit "Msg"%string) = Some d /\
+    decl_text C01_example.up C01_example.al is_ascii_digit R 10 d = Ok (lit "type Msg = { ""type"": ""Ping"" } | { ""type"": ""Text"" } & TextMsg;"%string) /\
+    ser C01_example.up R 10 C01_newtype.t (VVariant 1 [VStruct [VStr (lit "hi"%string); VInt 2]]) = Some j /\
+    json_text j = lit "{""type"":""Text"",""body"":""hi"",""n"":2}"%string /\
+    memberb (env_of C01_example.up C01_example.al is_ascii_digit R 10) 12 a j = true.
+Proof.
+  cbv zeta. split; [vm_compute; reflexivity|]. split; [vm_compute; reflexivity|]. eexists; eexists; eexists.
   split; [vm_compute; reflexivity|]. split; [vm_compute; reflexivity|]. split; [vm_compute; reflexivity|].
   split; [vm_compute; reflexivity|]. split; vm_compute; reflexivity.
 Qed.
